@@ -362,6 +362,13 @@ func (self *Node) attachToFileParents(fileParents map[Nodable]map[string]syntax.
 	for prenode, boundArgs := range fileParents {
 		for _, fork := range prenode.getNode().forks {
 			if setNode != nil {
+				// Each fork removes the arguments it leaves null from its
+				// own copy: the forks must not share the set.
+				forkArgs := make(map[string]syntax.Type, len(boundArgs))
+				for arg, t := range boundArgs {
+					forkArgs[arg] = t
+				}
+				boundArgs := forkArgs
 				if pNodeFiles := fork.filePostNodes; pNodeFiles == nil {
 					fork.filePostNodes = map[Nodable]map[string]syntax.Type{
 						self: boundArgs,
